@@ -5,12 +5,49 @@
 
 #include <etl/_config/all.hpp>
 
+#include <etl/_limits/numeric_limits.hpp>
 #include <etl/_type_traits/is_constant_evaluated.hpp>
 #include <etl/_type_traits/is_same.hpp>
 
 namespace etl {
 
 namespace detail {
+
+// Used in constant evaluation (and where there is no builtin). NaN and infinite operands need no
+// rounding and are handled first, so that a finite product which overflows on its own cannot turn
+// fma(x, y, +-inf) or fma(x, y, NaN) into something else. For finite operands GCC evaluates its
+// fma builtin exactly; other compilers round x * y before the addition.
+template <typename Float>
+[[nodiscard]] constexpr auto fma_fallback(Float x, Float y, Float z) noexcept -> Float
+{
+    if (x != x) {
+        return x;
+    }
+    if (y != y) {
+        return y;
+    }
+    if (z != z) {
+        return z;
+    }
+    auto const inf = etl::numeric_limits<Float>::infinity();
+    if (x == inf or x == -inf or y == inf or y == -inf) {
+        return x * y + z;
+    }
+    if (z == inf or z == -inf) {
+        return z;
+    }
+#if defined(TETL_COMPILER_GCC)
+    if constexpr (is_same_v<Float, float>) {
+        return __builtin_fmaf(x, y, z);
+    } else if constexpr (is_same_v<Float, double>) {
+        return __builtin_fma(x, y, z);
+    } else {
+        return __builtin_fmal(x, y, z);
+    }
+#else
+    return x * y + z;
+#endif
+}
 
 inline constexpr struct fma {
     template <typename Float>
@@ -27,9 +64,14 @@ inline constexpr struct fma {
                 return __builtin_fma(x, y, z);
             }
 #endif
+#if __has_builtin(__builtin_fmal)
+            if constexpr (is_same_v<Float, long double>) {
+                return __builtin_fmal(x, y, z);
+            }
+#endif
         }
 
-        return x * y + z;
+        return etl::detail::fma_fallback(x, y, z);
     }
 } fma;
 
